@@ -134,7 +134,11 @@ static std::string mutate(Choices &c, Val &root, int &depth)
 			*t = Val::dbl(d);
 			return "int -> double of the same numeric value";
 		}
-		case 2: t->mag ^= 1; return "integer value changed by one";
+		case 2:
+			t->mag ^= 1;
+			if (t->neg && t->mag > (1ULL << 63))
+				t->mag = (1ULL << 63) - 1; // (INT64_MIN has no negative neighbour)
+			return "integer value changed by one";
 		default:
 			if (t->mag)
 				t->neg = !t->neg;
